@@ -421,6 +421,12 @@ def survives(run, f):
                     rv = st["rv"]
                     i = rv["fields"].index("metrics")
                     t = strip_wrappers(tr.norm(tr.operand(rv["ops"][i])))
+                    tr0 = tr
+                    if t[0] in ("upvar", "field"):
+                        import sendpaths
+                        bd2, t = sendpaths.get(f).lift(bd, t)        # built inside a closure: the captured value
+                        t = strip_wrappers(t)
+                        tr = tracer_of(bd2)
                     good = t[0] == "param"
                     if t[0] == "call" and t[2].startswith("std::sync::Arc") and t[2].endswith("::new") and rv["adt"] == "actor_ref::ActorRef":
                         # the spawn function's fresh handle: Arc::new(MetricsCollector::new()) (one such site: one-collector-per-actor)
@@ -430,7 +436,12 @@ def survives(run, f):
                     if t[0] == "call" and t[2].endswith("Clone::clone"):
                         src = strip_refs(tr.norm(tr.call_args(t[1])[0]))
                         good = src[0] == "field" and strip_refs(src[2])[0] == "param"
+                        if not good and src[0] == "field" and strip_refs(src[2])[0] == "upvar":
+                            import sendpaths
+                            who = sendpaths.get(f).resolve_to_root_param(bd, src[2])     # `self` captured by a closure
+                            good = who[0] == "param"
                     n += 1
+                    tr = tr0
                     run.require(good, "O20.5", "metrics-copied:%s:%s" % (rv["adt"].split("::")[-1], (bd.root or bd.defn).split("::")[-1]), "handle built with metrics = %s" % show(t), "metrics Arc copied from the source handle")
     run.require(n >= 5, "O20.5", "construction-floor", "only %d handle constructions" % n, "%d constructions" % n)
     news = [(b.name, loc_of(b, k)) for b, k in all_calls(f) if callee(k.term) == MC + "::new" and "metrics::collector" not in b.name]
